@@ -11,6 +11,7 @@
    Dead nodes stay in the node map (YkTree keeps them with their deleted flag), so a saved pointer can always be inspected. *)
 EXTENDS YkIscan
 CONSTANTS BUGGY_F18,   \* TRUE: a deleted saved layer root below layer 0 always means "the layer is gone" (the pinned tree: the rest of a layer whose interior root collapsed is skipped)
+          BUGGY_F20,   \* TRUE: the new root of a layer is fetched through the border SAVED for the upper layer (the pinned tree: if that border was split and the link moved, the layer is taken for removed)
           BUGGY_F19    \* TRUE: a deleted neighbour at the end of a border sends an early_abort cursor to retry_from_root instead of returning the warning
 ElemR(key, root, bn, cmp, v, perm, rank) == [key |-> key, root |-> root, bn |-> bn, cmp |-> cmp, v |-> v, perm |-> perm, rank |-> rank]
 Res(st, stack, out, cbs) == [st |-> st, stack |-> stack, out |-> out, cbs |-> cbs]
@@ -35,6 +36,19 @@ FFLayerR(nd, root, tkey, cmp, stack, cbs, C) ==
    ELSE LET needcb == OnePoint(C) \/ (cmp = 0 /\ C.eep = "INC" /\ ktup.l > W /\ ktup = EndTuple(C, layer))
             pos == IF C.rtl /\ C.sep = "INF" THEN Sent10 ELSE ktup IN
         Res("CONT", Append(stack, el(pos)), <<>>, IF needcb THEN Append(cbs, <<bn.ver, b>>) ELSE cbs)
+\* the current root of the top layer: walk down from the tree root along the link tuples saved in the stack (iscan_resolve_top_layer_root);
+\* the pinned tree looked into the border saved for the upper layer only
+RECURSIVE ResolveFrom(_, _, _, _)
+ResolveFrom(nd, r, stack, level) ==
+   IF r = NULL \/ level >= Len(stack) THEN r
+   ELSE IF ~nd[r].ver.root THEN NULL        \* cannot happen at rest: the walk starts at the tree root and follows links to layer roots
+   ELSE LET e == stack[level]
+            b == IF nd[r].ver.del THEN r ELSE FindBorderRaw(nd, r, e.key.s, e.key.l)
+            s == IF nd[b].t = "B" THEN FindSlot(nd[b], e.key) ELSE -1 IN
+        ResolveFrom(nd, IF s # -1 /\ nd[b].lv[s][1] = "L" THEN nd[b].lv[s][2] ELSE NULL, stack, level + 1)
+ResolveTop(nd, rt, stack) ==
+   IF BUGGY_F20 THEN LET up == stack[Len(stack) - 1] ub == nd[up.bn] s == FindSlot(ub, up.key) IN IF s # -1 /\ ub.lv[s][1] = "L" THEN ub.lv[s][2] ELSE NULL
+   ELSE ResolveFrom(nd, rt, stack, 1)
 \* ---------------------------------------------------------------- iscan_findnext with its goto structure: mode = label
 \* L = locals [b, v, perm, i, lastk, cmp]
 SetTopR(stack, e) == [stack EXCEPT ![Len(stack)] = e]
@@ -50,15 +64,13 @@ RunR(mode, nd, rt, stack, cbs, L, C, ea, fuel) ==
          (IF depth = 1 THEN (IF root # rt THEN RunR("RR", nd, rt, SetTopR(stack, [e EXCEPT !.root = rt]), cbs, L, C, ea, fuel - 1) ELSE Res("END", stack, <<>>, cbs))
           ELSE IF ~BUGGY_F18 /\ nd[root].t = "I" THEN
                \* only the root of the layer was replaced (interior root collapsed): the new root is fetched through the link of the upper layer
-               LET up == stack[depth - 1] ub == nd[up.bn] s == FindSlot(ub, up.key)
-                   nr == IF s # -1 /\ ub.lv[s][1] = "L" THEN ub.lv[s][2] ELSE NULL IN
+               LET nr == ResolveTop(nd, rt, stack) IN
                IF nr # NULL THEN RunR("RR", nd, rt, SetTopR(stack, [e EXCEPT !.root = nr]), cbs, L, C, ea, fuel - 1)
                ELSE RunR("NL", nd, rt, SubSeq(stack, 1, depth - 1), cbs, L, C, ea, fuel - 1)
           ELSE RunR("NL", nd, rt, SubSeq(stack, 1, depth - 1), cbs, L, C, ea, fuel - 1))
       ELSE IF ~rv.root THEN
          (IF depth = 1 THEN RunR("RR", nd, rt, SetTopR(stack, [e EXCEPT !.root = rt]), cbs, L, C, ea, fuel - 1)
-          ELSE LET up == stack[depth - 1] ub == nd[up.bn] s == FindSlot(ub, up.key)
-                   nr == IF s # -1 /\ ub.lv[s][1] = "L" THEN ub.lv[s][2] ELSE NULL IN
+          ELSE LET nr == ResolveTop(nd, rt, stack) IN
                IF nr # NULL THEN RunR("RR", nd, rt, SetTopR(stack, [e EXCEPT !.root = nr]), cbs, L, C, ea, fuel - 1)
                ELSE RunR("NL", nd, rt, SubSeq(stack, 1, depth - 1), cbs, L, C, ea, fuel - 1))
       ELSE LET b == FindBorderRaw(nd, root, L.lastk.s, L.lastk.l)
